@@ -249,10 +249,13 @@ def Req.op : Req → Op
   | .delattr => .del
   | .callattr => .get
 
-/-- append the call of the obtained value -/
+/-- append the call of the obtained value.  After the default accessor the call happens iff `getattr(obj, n)` returned,
+i.e. iff the object has `n` (that is what `hasattr` means); otherwise the object's own AttributeError propagates.
+A hook that returned, returned a value. -/
 def thenCall (o : Obj) (r : Res) : Res :=
   match r.out with
-  | .ok a => { out := .ok a, log := r.log ++ [.call o.id a.name] }
+  | .ok (.direct n) => { out := .ok (.direct n), log := if o.has n then r.log ++ [.call o.id n] else r.log }
+  | .ok (.hooked n) => { out := .ok (.hooked n), log := r.log ++ [.call o.id n] }
   | .error e => { out := .error e, log := r.log }
 
 /-- `_handle_getattr / _handle_setattr / _handle_delattr / _handle_callattr` -/
